@@ -1,4 +1,5 @@
 import OV.Model.C03Pass
+import OV.Model.C03Frag
 import OV.Drivers.Loop
 /-! Line-protocol driver for C03/C04.
 
@@ -11,7 +12,8 @@ import OV.Drivers.Loop
 * the empty string (default domain, skipped optional output) is written `~`.
 
 Answer: `OK mod=<0|1> err=<-|msg> prune=<0|1> NEED <k> key* HIST <k> h* <graph>` (`prune`: nothing popped by
-`_clear_unused_initializers` is still referenced in the result).
+`_clear_unused_initializers` is still referenced in the result).  The first `HIST` token is `thm:fragmentA` when the case
+satisfies every mechanically checkable hypothesis of `fold_fragmentA_preserves` (`inTheoremFragment`, OV/Model/C03Frag.lean).
 -/
 namespace OV.Drivers.C03
 open OV.C03
@@ -247,7 +249,8 @@ def handle (args : List String) : String :=
          "err=" ++ (match st.err with | some e => sanitize e | none => "-"),
          "prune=" ++ (if pruneOk st c.g g' then "1" else "0"),
          "NEED", toString st.need.length] ++ st.need.reverse ++
-        ["HIST", toString st.hist.length] ++ st.hist.reverse ++ showGraph 64 g')
+        (let hist := (if inTheoremFragment c.ctx.isFunction c.info c.g then ["thm:fragmentA"] else []) ++ st.hist.reverse
+         ["HIST", toString hist.length] ++ hist) ++ showGraph 64 g')
   | _ => "bad-op"
 
 end OV.Drivers.C03
